@@ -405,8 +405,11 @@ class Ctx:
             "coverage": cov, "assumptions": self.assumptions, "wall_s": round(wall, 2),
             "violations": len(self.violations), "notes": self.notes[:20],
         }
-        os.makedirs(os.path.join(VERIF, "evidence"), exist_ok=True)
-        path = os.path.join(VERIF, "evidence", f"{self.prop}.json")
+        # evidence/ holds only runs against /repo itself; runs against a scratch tree (VERIF_REPO=…,
+        # used to try seeded changes) write to evidence/_scratch/ (git-ignored)
+        evdir = os.path.join(VERIF, "evidence") if os.path.realpath(REPO) == "/repo" else os.path.join(VERIF, "evidence", "_scratch")
+        os.makedirs(evdir, exist_ok=True)
+        path = os.path.join(evdir, f"{self.prop}.json")
         tmp = path + f".tmp{os.getpid()}"
         json.dump(ev, open(tmp, "w"), indent=1, default=str)
         os.replace(tmp, path)
